@@ -291,6 +291,17 @@ class CallMixin:
             return self.call_value(fv.fn, None, list(fv.args) + list(args), {**fv.kwargs, **kwargs}, node, fr)
         if qual == "typing.cast" and len(args) == 2:
             return args[1]
+        if qual == "operator.methodcaller" and args and isinstance(args[0], str):
+            mname, margs, mkw = args[0], list(args[1:]), dict(kwargs)
+
+            def _mc(run, a, k, n, f, _m=mname, _a=margs, _k=mkw):
+                fv2, _ = run.getattr_ref(a[0], None, _m, n, f)
+                return run.call_value(fv2, None, list(_a), dict(_k), n, f)
+            return ModelFn(f"methodcaller({mname})", _mc)
+        if qual == "operator.attrgetter" and len(args) == 1 and isinstance(args[0], str) and "." not in args[0]:
+            return ModelFn(f"attrgetter({args[0]})", lambda run, a, k, n, f, _m=args[0]: run.getattr_ref(a[0], None, _m, n, f)[0])
+        if qual == "operator.itemgetter" and len(args) == 1:
+            return ModelFn(f"itemgetter({vkey(args[0])})", lambda run, a, k, n, f, _i=args[0]: run.getitem_ref(a[0], None, _i, n, f)[0])
         if qual in OPERATOR_FUNCS and len(args) == 2 and not kwargs:
             return self.binop(OPERATOR_FUNCS[qual], args[0], args[1], node)
         if qual in ("dataclasses.replace", "copy.copy") and args and isinstance(args[0], Obj) and (qual == "copy.copy" or args[0].cls in self.repo.classes):
@@ -614,6 +625,16 @@ class CallMixin:
                     break
                 out.append(tuple(row))
             return _ConcreteIter(out)
+        if name in ("sorted", "min", "max") and kwargs.get("key") is not None and len(args) == 1 and not contains_term(args[0]) \
+                and isinstance(args[0], (list, tuple, set, frozenset, dict, _ConcreteIter)):
+            seq = args[0].drain() if isinstance(args[0], _ConcreteIter) else list(args[0])
+            ks = self._keyed(seq, kwargs["key"], node, fr)
+            if ks is not None and (ks or name == "sorted"):
+                if name == "sorted":
+                    order = sorted(range(len(ks)), key=lambda i_: ks[i_][0], reverse=bool(kwargs.get("reverse", False)))
+                    return [ks[i_][1] for i_ in order]
+                pick = (min if name == "min" else max)(range(len(ks)), key=lambda i_: ks[i_][0])
+                return ks[pick][1]
         concrete = all(_plain(x) for x in args) and all(_plain(x) for x in kwargs.values())
         if concrete and name in SAFE_BUILTINS:
             try:
